@@ -102,3 +102,9 @@
 (declare-fun missUpTo (Tr (Array Int Iface) Int Int Str) Bool)
 (assert (forall ((t Tr) (a (Array Int Iface)) (o Int) (n Str)) (! (missUpTo t a o 0 n) :pattern ((missUpTo t a o 0 n)))))
 (assert (forall ((t Tr) (a (Array Int Iface)) (o Int) (k Int) (n Str)) (! (=> (> k 0) (= (missUpTo t a o k n) (and (missUpTo t a o (- k 1) n) (distinct (loadErr (loadsUpTo t a o (- k 1) n) (select a (+ o (- k 1))) n) (mk-iface 0 0))))) :pattern ((missUpTo t a o k n)))))
+
+; ---- variable lookup events (C11): emitLookup(t, ctx, name) is the event "name was looked up in ctx";
+; lookRes / lookErr name what that lookup yields (abstraction, no assumption)
+(declare-fun emitLookup (Tr Int Str) Tr)
+(declare-fun lookRes (Tr Int Str) Iface)
+(declare-fun lookErr (Tr Int Str) Iface)
